@@ -88,7 +88,62 @@ LunarEdge ==
                            /\ e.res[4] = e.exp[5] + e.exp[3] - 1
                            /\ << e.res[5], e.res[6], e.res[7] >> = << e.exp[1], e.exp[2], e.exp[3] >>))
 
+(***************************************************************************)
+(* C01Year: every day of a civil year through both conversion routes.      *)
+(***************************************************************************)
+HMS(sod) == << HourOf(sod), MinuteOf(sod), SecondOf(sod) >>
+PosInTable(T, y, m) == CHOOSE i \in 1..Len(T) : MY(T[i]) = y /\ MM(T[i]) = m
+C01Checks(e) ==
+  LET y == e.y
+      T == T4(e.t)
+      R == e.rows
+      n == Len(R)
+      okRow(i) == R[i].pa = 0 /\ HasMonth(T, R[i].a[1], R[i].a[2])
+      Ord(i) == << PosInTable(T, R[i].a[1], R[i].a[2]), R[i].a[3] >>
+  IN IF e.p # 0 THEN Chk("C01.table.panic", y, FALSE)
+     ELSE
+       \* the 15 months of table Y cover every day of civil year Y
+       Chk("C01.table.covers-year", y, Len(T) = 15 /\ Covered(T, JDN(y, 1, 1)) /\ Covered(T, JDN(y, 12, 31)))
+       + SumSeq(R, LAMBDA x :
+           LET c == x.c
+               J == JDN(c[1], c[2], c[3])
+               k == << c[1], c[2], c[3], c[4] >>
+               t3 == HMS(c[4])
+           IN IF x.pa # 0 THEN Chk("C01.toLunar.panic", k, FALSE)
+              ELSE
+                \* civil -> lunar: the unique month of the year's table containing the day
+                Chk("C01.toLunar", << k, x.a >>, /\ UniqueMonth(T, J)
+                                                 /\ << x.a[1], x.a[2], x.a[3] >> = ToLunar(T, J)
+                                                 /\ << x.a[4], x.a[5], x.a[6] >> = t3)
+                + Chk("C01.toLunar.keeps-civil", << k, x.as >>, x.as = << c[1], c[2], c[3] >> \o t3)
+                \* lunar -> civil -> lunar through the constructor
+                + (IF x.pb # 0 THEN Chk("C01.fromLunar.panic", << k, x.a >>, FALSE)
+                   ELSE Chk("C01.fromLunar.civil-day", << k, x.a, x.bs >>, x.bs = << c[1], c[2], c[3] >> \o t3)
+                        + Chk("C01.fromLunar.fields", << k, x.a, x.b >>, x.b = x.a)
+                        + Chk("C01.fromLunar.back", << k, x.a, x.bl >>, x.bl = x.a)
+                        \* path independence: all zero-argument getters agree
+                        + (IF Has(x, "da") THEN Chk("C01.path-independence", << k, x.a, IF Has(x, "diff") THEN x.diff ELSE "" >>, x.da = x.db) ELSE 0))
+                \* stepping n days on the lunar side = stepping n days on the civil side
+                + (IF Has(x, "nx")
+                     THEN LET nx == x.nx
+                          IN IF nx[2] # 0 THEN Chk("C01.next.panic", << k, nx[1] >>, FALSE)
+                             ELSE Chk("C01.next.civil-day", << k, nx[1] >>, nx[9] = J + nx[1] /\ nx[10] = c[4])
+                                  + Chk("C01.next.same-as-civil-route", << k, nx[1] >>,
+                                        << nx[3], nx[4], nx[5], nx[6], nx[7], nx[8] >> = << nx[11], nx[12], nx[13], nx[14], nx[15], nx[16] >>)
+                     ELSE 0))
+       \* order preservation along the year: lunar (year, month position, day) strictly increases with the civil day
+       + SumN(n - 1, LAMBDA i :
+           IF okRow(i) /\ okRow(i + 1)
+             THEN Chk("C01.order", << R[i].c, R[i].a, R[i + 1].a >>,
+                      LET a == Ord(i) b == Ord(i + 1) IN a[1] < b[1] \/ (a[1] = b[1] /\ a[2] < b[2]))
+             ELSE 0)
+       \* one-to-one: no two civil days of the year share a lunar date
+       + Chk("C01.injective", y, Cardinality({ << R[i].a[1], R[i].a[2], R[i].a[3] >> : i \in { j \in 1..n : R[j].pa = 0 } })
+                                 = Cardinality({ j \in 1..n : R[j].pa = 0 }))
+
+C01Year == IsEv("C01Year") /\ Consume(C01Checks(Trace[l]))
+
 TraceInit == KitInit
-TraceNext == C06Year \/ LunarEdge
+TraceNext == C06Year \/ LunarEdge \/ C01Year
 TraceSpec == TraceInit /\ [][TraceNext]_tvars
 =============================================================================
